@@ -108,7 +108,8 @@ def make_scenario(job, groups):
             "stable": False,
         }
         processed = []
-        g = ConsumerGroup(client, "grp", ["t"], lambda c, msgs: processed.extend(msgs), session_timeout_ms=30000,
+        topics = ["t", "u"] if job.get("two_topics") else ["t"]
+        g = ConsumerGroup(client, "grp", list(topics), lambda c, msgs: processed.extend(msgs), session_timeout_ms=30000,
                           heartbeat_interval_ms=5000, initial_backoff_ms=int(INITIAL_S * 1000), retry_backoff_ms=int(RETRY_S * 1000),
                           fatal_backoff_ms=int(FATAL_S * 1000),
                           consumer_kwargs=dict(auto_commit_every_n=(1 if job.get("autocommit") else 0), auto_commit_every_ms=0))
@@ -137,6 +138,11 @@ def make_scenario(job, groups):
             if kind == "join":
                 st["joins"] += 1
                 st["stable"] = False
+                if "fence" in groups and not st.get("rejected_since_sync") and not st["stop_called"]:
+                    # a graceful re-join (rebalance announced): the old generation's consumers were shut down committing their
+                    # progress -- none of their commits may have been abandoned while the coordinator had not answered it
+                    dropped = [x for x in client.history[st.get("hist_at_sync", 0):] if x.kind == "commit" and x.cancelled]
+                    ctx.check(not dropped, "shutdown-commits-not-abandoned", "JoinGroup sent after %d commit(s) of the previous generation were cancelled unanswered" % len(dropped))
                 if "fence" in groups:
                     ctx.check(not running(), "consumers-shut-down-before-rejoin", "JoinGroup sent while %d partition consumer(s) of the previous generation are running" % len(running()))
                     ctx.check(len(client.outstanding("join")) + len(client.outstanding("sync")) <= 1, "one-join-sync-exchange-in-flight", "a second join/sync exchange was started")
@@ -161,7 +167,7 @@ def make_scenario(job, groups):
                 auto.append(p)
             if kind == "fetch":
                 req = p.args["payloads"][0]
-                key = ("fed", req.partition, st["joins"])
+                key = ("fed", req.topic, req.partition, st["joins"])
                 if key not in st:
                     st[key] = True
                     auto.append(p)
@@ -224,6 +230,8 @@ def make_scenario(job, groups):
             return [dc for dc in clock.getDelayedCalls() if dc.active() and getattr(dc.func, "__name__", "") == "join_and_sync"]
 
         def fail_with(p, name):
+            if name in EVICTING or name in ("unknown_member", "illegal_generation", "non_kafka", "inconsistent_protocol"):
+                st["rejected_since_sync"] = True  # the coordinator rejected this member: its consumers are stopped, not shut down
             st["timer_before_fault"] = bool(rejoin_timers())
             st["last_error"] = name
             st["last_error_time"] = clock.seconds()
@@ -265,8 +273,9 @@ def make_scenario(job, groups):
             elif kind == "metadata":
                 o = fault_or_ok(kind, ["unavailable"] if "progress" in groups else [])
                 if o == "ok":
-                    client.topic_partitions["t"] = [0, 1]
-                    client.topic_errors["t"] = 0
+                    for t_ in topics:
+                        client.topic_partitions[t_] = [0, 1]
+                        client.topic_errors[t_] = 0
                     client.resolve(p, True)
                 else:
                     fail_with(p, o)
@@ -297,7 +306,7 @@ def make_scenario(job, groups):
             elif kind == "partitions":
                 o = fault_or_ok(kind, ["unavailable"] if "progress" in groups else [])
                 if o == "ok":
-                    client.resolve(p, {"t": [0, 1]})
+                    client.resolve(p, {t_: [0, 1] for t_ in topics})
                 else:
                     fail_with(p, o)
                     check_backoff(o, kind)
@@ -310,11 +319,18 @@ def make_scenario(job, groups):
                         ctx.check(len(mine) == 1 and len(pl.group_assignment) == len(st["members"]), "leader-sends-one-assignment-per-member", repr(pl.group_assignment))
                         blob = mine[0] if mine else KafkaCodec.encode_sync_group_member_assignment(0, {}, b"")
                     else:
-                        parts = [0] if st.get("in_prefix") else [[0], [1], [0, 1], []][ctx.choose("assigned", 4)]
-                        blob = KafkaCodec.encode_sync_group_member_assignment(0, {"t": parts} if parts else {}, b"")
+                        if job.get("two_topics"):
+                            # partitions of both topics (so the member runs consumers of two topics), or of one only
+                            asg = {"t": [0], "u": [0]} if st.get("in_prefix") else [{"t": [0], "u": [0]}, {"t": [0, 1], "u": [1]}, {"u": [0]}][ctx.choose("assigned", 3)]
+                        else:
+                            parts = [0] if st.get("in_prefix") else [[0], [1], [0, 1], []][ctx.choose("assigned", 4)]
+                            asg = {"t": parts} if parts else {}
+                        blob = KafkaCodec.encode_sync_group_member_assignment(0, asg, b"")
                     dec = _ConsumerProtocol().decode_assignment(blob)
                     st["assignment"] = {t: list(ps) for t, ps in dec.items()}
                     st["stable"] = True
+                    st["rejected_since_sync"] = False
+                    st["hist_at_sync"] = len(client.history)
                     client.resolve(p, _SyncGroupResponse(0, blob))
                 else:
                     fail_with(p, o)
@@ -337,21 +353,21 @@ def make_scenario(job, groups):
             elif kind == "leave":
                 client.resolve(p, _LeaveGroupResponse(0))
             elif kind == "offset_fetch":
-                client.resolve(p, [OffsetFetchResponse("t", p.args["payloads"][0].partition, ctx.int("committed", -1, 2**40), b"", 0)])
+                client.resolve(p, [OffsetFetchResponse(p.args["payloads"][0].topic, p.args["payloads"][0].partition, ctx.int("committed", -1, 2**40), b"", 0)])
             elif kind == "offset":
                 from afkak.common import OffsetResponse
 
-                client.resolve(p, [OffsetResponse("t", p.args["payloads"][0].partition, 0, (0,))])
+                client.resolve(p, [OffsetResponse(p.args["payloads"][0].topic, p.args["payloads"][0].partition, 0, (0,))])
             elif kind == "fetch":
                 # one message per consumer and generation, so that shutting it down has something to commit
                 req = p.args["payloads"][0]
                 from afkak.common import Message, OffsetAndMessage
 
-                client.resolve(p, [FetchResponse("t", req.partition, 0, 0, iter([OffsetAndMessage(req.offset, Message(0, 0, None, b"v"))]))])
+                client.resolve(p, [FetchResponse(req.topic, req.partition, 0, 0, iter([OffsetAndMessage(req.offset, Message(0, 0, None, b"v"))]))])
             elif kind == "commit":
                 o = fault_or_ok(kind, ["illegal_generation", "rebalance"])
                 if o == "ok":
-                    client.resolve(p, [OffsetCommitResponse("t", p.args["payloads"][0].partition, 0)])
+                    client.resolve(p, [OffsetCommitResponse(p.args["payloads"][0].topic, p.args["payloads"][0].partition, 0)])
                 else:
                     fail_with(p, o)
             else:
